@@ -2,7 +2,7 @@
 from hypothesis import strategies as st
 
 from vf import gen
-from vf.core import Fails, Target, attempt, bx, hx, raised
+from vf.core import Fails, Target, attempt, bx, hx, raised, seq
 from vf.env import rng, smallcurve
 from vf.ref import ec
 
@@ -67,7 +67,7 @@ def check_law(case):
         got = attempt(em.point_add, A, B)
         f.expect(not raised(got) and got == want, f"add/ne-reference/{kind}", repr(got)[:120])
         if not raised(got) and got is not None:
-            f.expect(ec.on_curve(tuple(got)), f"add/result-off-curve/{kind}")
+            f.expect(ec.on_curve(seq(got)), f"add/result-off-curve/{kind}")
     elif op == "mul":
         k, b = case["k"], case["b"]
         Pt = _pt(b) if b % N else ec.G
@@ -186,7 +186,7 @@ def check_privkey(case):
         if case.get("point"):
             cp = attempt(bits.compute_point, b)
             want = ec.pub(v)
-            f.expect(not raised(cp) and tuple(cp) == want, "compute_point/ne-kG", repr(cp)[:100])
+            f.expect(not raised(cp) and seq(cp) == want, "compute_point/ne-kG", repr(cp)[:100])
             for comp in (True, False):
                 pk = attempt(bits.keys.pub, b, compressed=comp)
                 f.expect(pk == ec.sec1_encode(want, comp), f"keys.pub/ne-sec1/{'c' if comp else 'u'}", repr(pk)[:80])
